@@ -40,6 +40,46 @@ pub fn unhex(s: &str) -> Vec<u8> {
 /// run f, mapping a panic to None (the default panic hook is silenced once in main)
 pub fn guard<T>(f: impl FnOnce() -> T) -> Option<T> { catch_unwind(AssertUnwindSafe(f)).ok() }
 
+// ---------------------------------------------------------------- non-termination watchdog
+// A call into the code under test that does not return cannot be caught like a panic.  Calls whose totality is part of a property are
+// wrapped in `watched`: the input is recorded while the call runs, and a watchdog thread that sees the SAME call still running after
+// WATCH_LIMIT seconds (the calls take microseconds) writes a stats file holding that input as the failure and ends the process.
+static WATCH_SEQ: std::sync::atomic::AtomicU64 = std::sync::atomic::AtomicU64::new(0);
+static WATCH_ARMED: std::sync::atomic::AtomicBool = std::sync::atomic::AtomicBool::new(false);
+static WATCH_INPUT: std::sync::Mutex<(String, String)> = std::sync::Mutex::new((String::new(), String::new()));
+pub const WATCH_LIMIT: u64 = 20;
+pub fn watched<T>(what: &str, input: impl FnOnce() -> String, f: impl FnOnce() -> T) -> T {
+    use std::sync::atomic::Ordering::SeqCst;
+    { let mut g = WATCH_INPUT.lock().unwrap(); g.0.clear(); g.0.push_str(what); g.1 = input(); }
+    WATCH_SEQ.fetch_add(1, SeqCst); WATCH_ARMED.store(true, SeqCst);
+    let r = f();
+    WATCH_ARMED.store(false, SeqCst); WATCH_SEQ.fetch_add(1, SeqCst);
+    r
+}
+/// started once per run; `out` = the run's output directory (stats.json, cases.txt, impl.txt)
+pub fn start_watchdog(prop: &str, out: &str, replay: bool) {
+    use std::sync::atomic::Ordering::SeqCst;
+    let (prop, out) = (prop.to_string(), out.to_string());
+    let _ = std::thread::spawn(move || {
+        let mut last = 0u64; let mut since = std::time::Instant::now();
+        loop {
+            std::thread::sleep(std::time::Duration::from_millis(500));
+            let s = WATCH_SEQ.load(SeqCst);
+            if s != last || !WATCH_ARMED.load(SeqCst) { last = s; since = std::time::Instant::now(); continue; }
+            if since.elapsed().as_secs() >= WATCH_LIMIT {
+                let (what, input) = WATCH_INPUT.lock().map(|g| g.clone()).unwrap_or_default();
+                if replay { println!("FAIL [{prop}] {what} does not return within {WATCH_LIMIT} s"); std::process::exit(1); }
+                let mut st = Stats::default(); st.evaluations = 1;
+                st.rule = "run cut short by the non-termination watchdog".into();
+                st.fail(format!("[{prop}] {what} does not return (still running after {WATCH_LIMIT} s; such calls take microseconds)"), input);
+                let _ = std::fs::write(format!("{out}/cases.txt"), ""); let _ = std::fs::write(format!("{out}/impl.txt"), "");
+                st.write(&format!("{out}/stats.json"));
+                std::process::exit(0);
+            }
+        }
+    });
+}
+
 pub fn jstr(s: &str) -> String {
     let mut o = String::from("\"");
     for c in s.chars() {
